@@ -191,6 +191,9 @@ pub struct VariantSpec {
     pub docs_last: bool,
     /// `#[strum_discriminants(..)]` pass-through bodies on this variant (C09), e.g. `strum(serialize = "x")`
     pub disc_passthrough: Vec<String>,
+    /// harmless non-strum attributes written before the strum attributes of the variant
+    #[serde(default)]
+    pub noise: Vec<String>,
 }
 
 impl VariantSpec {
@@ -204,6 +207,7 @@ impl VariantSpec {
             docs: vec![],
             docs_last: false,
             disc_passthrough: vec![],
+            noise: vec![],
         }
     }
     pub fn attrs(&self) -> impl Iterator<Item = &VAttr> {
